@@ -80,6 +80,7 @@ def documents(tier):
         ("multi_file", "thrift", [stress["multi_file"]], "multi_main.thrift"),
         ("case_collisions", "thrift", [stress["case_collisions"]], None),
         ("shared_ns", "thrift", [stress["shared_ns"]], "shared_main.thrift"),
+        ("dedup_modules", "thrift", [stress["dedup_modules"]], "dd_main.thrift"),
         ("sem_service", "thrift", [sem["sem_service"]], None),
         ("proto_nested", "proto", [corpus.RawDoc("proto_nested", {"proto_nested.proto": PROTO_NESTED}, mode="proto")], None),
     ]
@@ -130,6 +131,8 @@ def run_one(binpath, mode, idl_dir, docname, rawdocs, output_mode, outdir, seed,
         cmd += ["--out", target]
         if output_mode == "split":
             cmd += ["--split"]
+    if getattr(d, "dedup", None):
+        cmd += ["--dedup", ",".join(d.dedup)]
     if mode == "proto":
         cmd += ["--include", os.path.join(idl_dir, d.name)]
     cmd += [main]
